@@ -34,6 +34,7 @@ import (
 	"github.com/markusmobius/go-domdistiller/internal/domutil"
 	"github.com/markusmobius/go-domdistiller/internal/logutil"
 	"github.com/markusmobius/go-domdistiller/internal/stringutil"
+	"github.com/markusmobius/go-domdistiller/vtrace"
 	"golang.org/x/net/html"
 )
 
@@ -288,6 +289,9 @@ func (c *Classifier) getRowAndColumnCount(t *html.Node) (int, int) {
 }
 
 func (c *Classifier) logAndReturn(tableType Type, reason Reason) (Type, Reason) {
+	if vtrace.On {
+		vtrace.Emit("TableClass", "type", tableType.String(), "reason", reason.String())
+	}
 	if c.logger != nil {
 		c.logger.PrintVisibilityInfo(reason, "=>", tableType)
 	}
